@@ -42,15 +42,15 @@ FILE_WRITE = Assumed("TextIOWrapper.write", params=["text"], raises=[Raises("OSE
                     why="writing to the temporary output file of the fix line pass; may fail with OSError")
 
 
-def dispatcher(name, lst, event, extra_ensures=(), extra_inv=(), extra_mods=()):
+def dispatcher(name, lst, event, extra_ensures=(), extra_inv=(), extra_mods=(), extra_ghost=None):
     L = f"self.{lst}"
     scan = "(context_map is None and not old(context).in_fix_mode)"
     sep = (f"context._PluginScanContext__reported is not {L} and context._PluginScanContext__fix_token_map is None "
            f"and context._PluginScanContext__replace_token_list is None")
     ev = event.replace("L[j]", f"{L}[j]")
     register(Contract(
-        key=PM + name, properties=["C07", "C12", "C14", "C15"],
-        ghost=TRACE,
+        key=PM + name, properties=["C07", "C12", "C14", "C15", "C09"],
+        ghost=dict(TRACE, **(extra_ghost or {})),
         requires=[f"implies(context_map is None and not context.in_fix_mode, context.current_fix_line is None and {sep})"],
         ensures=[f"implies({scan}, {e})" for e in appended(L, ev)]
         + [f"implies({scan}, context.current_fix_line is None)"] + list(extra_ensures),
@@ -78,9 +78,15 @@ def dispatcher(name, lst, event, extra_ensures=(), extra_inv=(), extra_mods=()):
 
 
 dispatcher("next_token", "__enabled_plugins_for_next_token", "('tok', L[j].plugin_instance, context, token)")
+CH_POST = ['implies(len(trace) > old(len(trace)), trace[old(len(trace))][4] is line)', 'len(g_cfl) - old(len(g_cfl)) == len(trace) - old(len(trace))', 'forall(lambda t: trace[t][4] is (g_cfl[t - old(len(trace)) + old(len(g_cfl)) - 1] if g_cfl[t - old(len(trace)) + old(len(g_cfl)) - 1] is not None else trace[t - 1][4]), old(len(trace)) + 1, len(trace))']
+CH_INV = ['len(g_cfl) - old(len(g_cfl)) == len(trace) - old(len(trace))', 'len(trace) >= old(len(trace))', 'implies(len(trace) == old(len(trace)), line is old(line))', 'implies(len(trace) > old(len(trace)), trace[old(len(trace))][4] is old(line))', 'implies(len(trace) > old(len(trace)), line is (g_cfl[len(g_cfl) - 1] if g_cfl[len(g_cfl) - 1] is not None else trace[len(trace) - 1][4]))', 'forall(lambda t: trace[t][4] is (g_cfl[t - old(len(trace)) + old(len(g_cfl)) - 1] if g_cfl[t - old(len(trace)) + old(len(g_cfl)) - 1] is not None else trace[t - 1][4]), old(len(trace)) + 1, len(trace))', 'forall(lambda t: trace[t] == old(trace[t]), 0, old(len(trace)))']
 dispatcher("next_line", "__enabled_plugins_for_next_line", "('line', L[j].plugin_instance, context, line_number, line)",
-           extra_ensures=["implies(context_map is None and not old(context).in_fix_mode, context.line_number == line_number)"],
-           extra_inv=["implies(context_map is None and not old(context).in_fix_mode, line is old(line))",
+           extra_ghost={"g_cfl": "List[Optional[str]]"},
+           extra_ensures=[
+               # C09 (all modes, with or without context_map): a rule receives the line as fixed by the rules before it: the first
+               # rule gets the file's line, each later one gets the previous rule's fixed line if it set one, else what that rule got
+               ] + CH_POST + ["implies(context_map is None and not old(context).in_fix_mode, context.line_number == line_number)"],
+           extra_inv=CH_INV + ["implies(context_map is None and not old(context).in_fix_mode, line is old(line))",
                       "implies(context_map is None and not old(context).in_fix_mode, context.line_number == line_number)"],
            extra_mods=["context.line_number"])
 dispatcher("completed_file", "__enabled_plugins_for_completed_file", "('done', L[j].plugin_instance, context, line_number)",
